@@ -153,7 +153,8 @@ fn source_audit(rep: &mut Report) {
     // sites where iteration order or ambient state could leak into output
     let pats = ["HashMap", "HashSet", "static mut", "thread_local!", "lazy_static", "OnceCell", "OnceLock", "SystemTime", "Instant::", "rand::", "unsafe impl Send", "unsafe impl Sync", "RandomState"];
     let mut found: Vec<String> = vec![];
-    let mut stack = vec![std::path::PathBuf::from("/repo/src")];
+    let root = crate::util::repo_root();
+    let mut stack = vec![std::path::PathBuf::from(format!("{}/src", root))];
     while let Some(d) = stack.pop() {
         if let Ok(rd) = std::fs::read_dir(&d) {
             for e in rd.flatten() {
@@ -202,7 +203,7 @@ fn source_audit(rep: &mut Report) {
                             }
                             for pat in pats {
                                 if l.contains(pat) {
-                                    found.push(format!("{}|{}|{}", p.strip_prefix("/repo/").unwrap_or(&p).display(), pat, t));
+                                    found.push(format!("{}|{}|{}", p.strip_prefix(format!("{}/", root)).unwrap_or(&p).display(), pat, t));
                                 }
                             }
                         }
